@@ -34,11 +34,12 @@ LIB_MANIFESTS = {
     "empty-url": "namespace: Lib\nimports:\n  - ../base\n  - \"\"\n",
     "yaml-error": "namespace: Lib\nimports: [../base\n",
     "no-namespace": "imports:\n  - ../base\n",
+    "standalone": "namespace: Lib\n",
 }
 
 
-def lib_model(version, valid=True):
-    return f"LibRec: !record\n  fields:\n    b: Base.BaseRec\n    l{version}: " + ("int" if valid else "NoSuchType") + "\n"
+def lib_model(version, valid=True, standalone=False):
+    return f"LibRec: !record\n  fields:\n    b: " + ("float" if standalone else "Base.BaseRec") + f"\n    l{version}: " + ("int" if valid else "NoSuchType") + "\n"
 
 
 def base_model(version):
@@ -110,7 +111,21 @@ def directed_schedules():
         # watched package keeps being edited
         (f"imported-package-invalid-{kind}", [S(1), ("sleep", 150), ("lib-manifest", kind), ("sleep", 30), S(2), ("sleep", 400), ("lib-manifest", "valid"), ("sleep", 30), S(3),
                                               ("sleep", 300), ("lib-model", 4), ("sleep", 30), S(4), ("sleep", 200), S(5)])
-        for kind in LIB_MANIFESTS if kind != "valid"
+        for kind in LIB_MANIFESTS if kind not in ("valid", "standalone")
+    ] + [
+        # the last edit is made in an imported package (nothing is saved in the watched package afterwards)
+        ("imports-edited-last", [S(1), ("sleep", 200), ("lib-model", 2), ("sleep", 300), ("base-model", 3), ("sleep", 500)]),
+        # ... in the *only* referenced package (Lib without imports of its own)
+        ("single-import-edited-last", [("init-standalone-lib",), S(1), ("sleep", 200), ("lib-model", 2, True, True), ("sleep", 500)]),
+        # ... after a regeneration failed because of it
+        ("import-broken-then-repaired-there", [S(1), ("sleep", 150), ("lib-model", 2, False), ("sleep", 400), ("lib-model", 3), ("sleep", 600)]),
+        ("import-manifest-broken-then-repaired-there", [S(1), ("sleep", 150), ("lib-manifest", "yaml-error"), ("sleep", 400), ("lib-manifest", "valid"), ("sleep", 100), ("base-model", 5), ("sleep", 600)]),
+        # a model file in a subdirectory of the package (parsed like the others)
+        ("subdirectory-file-edited-last", [S(1), ("sleep", 200), ("save-sub", 2), ("sleep", 300), ("save-sub", 3), ("sleep", 500)]),
+        # a whole output section is deleted from the manifest while watching: a one-shot run no longer writes (or updates) that output
+        ("output-section-deleted", [S(1), ("sleep", 900), ("manifest-without", "matlab"), ("sleep", 300), S(2), ("sleep", 400)]),
+        # a save arrives while a slow *failing* regeneration is running, and nothing follows
+        ("save-during-slow-failing-regeneration", [S(1), ("sleep", 200), ("save-big-invalid", 12000), ("sleep", 120), S(2), ("sleep", 3000)]),
     ] + [
         ("imported-model-invalid", [S(1), ("sleep", 100), ("lib-model", 2, False), ("sleep", 30), S(2), ("sleep", 300), ("lib-model", 3), ("sleep", 30), S(3), ("sleep", 200), ("base-model", 4), ("sleep", 30), S(4)]),
     ]
@@ -260,6 +275,15 @@ def _execute(ybin, root, steps, cfg=()):
         os.makedirs(os.path.join(root, d), exist_ok=True)
         _write(os.path.join(root, d, "_package.yml"), man)
         _write(os.path.join(root, d, "model.yml"), mdl)
+    standalone_main = any(st[0] == "init-standalone-main" for st in steps)
+    if any(st[0] == "init-standalone-lib" for st in steps):
+        _write(os.path.join(root, "lib", "_package.yml"), LIB_MANIFESTS["standalone"])
+        _write(os.path.join(root, "lib", "model.yml"), lib_model(0, True, True))
+    os.makedirs(os.path.join(pkg, "sub"), exist_ok=True)
+    _write(os.path.join(pkg, "sub", "more.yml"), "Sub0: int32\n")
+    mdl = (lambda v, valid=True: model(v, valid).replace("    lib: Lib.LibRec\n", "")) if standalone_main else model
+    if standalone_main:
+        _write(os.path.join(pkg, "model.yml"), mdl(0))
     delay_file = os.path.join(root, "delay")
     log = open(os.path.join(root, "watch.log"), "wb")
     p = subprocess.Popen([ybin, "generate", "--watch"] + list(cfg), cwd=pkg, stdout=log, stderr=subprocess.STDOUT,
@@ -279,7 +303,7 @@ def _execute(ybin, root, steps, cfg=()):
                 max_delay = max(max_delay, st[1])
             elif st[0] == "save":
                 kw = st[2] if len(st) > 2 else {}
-                _write(os.path.join(pkg, "model.yml"), model(st[1], kw.get("valid", True)))
+                _write(os.path.join(pkg, "model.yml"), mdl(st[1], kw.get("valid", True)))
                 final = (st[1], kw.get("valid", True))
                 if "gap" in kw:
                     time.sleep(kw["gap"] / 1000.0)
@@ -292,7 +316,23 @@ def _execute(ybin, root, steps, cfg=()):
             elif st[0] == "lib-manifest":
                 _write(os.path.join(root, "lib", "_package.yml"), LIB_MANIFESTS[st[1]])
             elif st[0] == "lib-model":
-                _write(os.path.join(root, "lib", "model.yml"), lib_model(st[1], st[2] if len(st) > 2 else True))
+                _write(os.path.join(root, "lib", "model.yml"), lib_model(st[1], st[2] if len(st) > 2 else True, st[3] if len(st) > 3 else False))
+            elif st[0] == "save-sub":
+                _write(os.path.join(pkg, "sub", "more.yml"), f"Sub{st[1]}: int32\n")
+            elif st[0] == "manifest-without":
+                # the manifest without one of its top-level sections
+                keep, skipping = [], False
+                for line in MANIFEST.splitlines():
+                    if not line.startswith(" "):
+                        skipping = line.startswith(st[1] + ":")
+                    if not skipping:
+                        keep.append(line)
+                # what that output directory holds now is what it must still hold at the end (a one-shot run would not touch it)
+                shutil.copytree(os.path.join(root, "out_" + st[1]), os.path.join(root, "frozen_out_" + st[1]))
+                _write(os.path.join(pkg, "_package.yml"), "\n".join(keep) + "\n")
+            elif st[0] == "save-big-invalid":
+                _write(os.path.join(pkg, "model.yml"), "".join(f"Big{i}: !record\n  fields:\n    a: int\n    b: Big{max(i - 1, 0)}?\n" for i in range(st[1])) + "Bad: !record\n  fields:\n    z: NoSuchType\n")
+                final = (st[1], False)
             elif st[0] == "base-model":
                 _write(os.path.join(root, "base", "model.yml"), base_model(st[1]))
         # quiescence: no pending delay, output unchanged for a while
@@ -313,6 +353,7 @@ def _execute(ybin, root, steps, cfg=()):
         os.makedirs(os.path.join(ref, "pkg"))
         for fn in ("_package.yml", "model.yml", "extra.yml"):
             shutil.copy(os.path.join(pkg, fn), os.path.join(ref, "pkg", fn))
+        shutil.copytree(os.path.join(pkg, "sub"), os.path.join(ref, "pkg", "sub"))
         for d in ("lib", "base"):
             shutil.copytree(os.path.join(root, d), os.path.join(ref, d))
         r = subprocess.run([ybin, "generate"] + list(cfg), cwd=os.path.join(ref, "pkg"), stdout=subprocess.PIPE, stderr=subprocess.STDOUT)
@@ -323,8 +364,12 @@ def _execute(ybin, root, steps, cfg=()):
             # the same output directories (with overrides: the overridden ones, and not the manifest's own), with the same content
             outs_ref = sorted(x for x in os.listdir(ref) if x.startswith(("out_", "alt_")))
             outs_watch = sorted(x for x in os.listdir(root) if x.startswith(("out_", "alt_")))
+            for d in [x for x in outs_watch if x not in outs_ref and os.path.isdir(os.path.join(root, "frozen_" + x))]:
+                # an output whose section was deleted from the manifest: untouched since then
+                diff = diff or _tree_diff(os.path.join(root, "frozen_" + d), os.path.join(root, d))
+                outs_watch.remove(d)
             if outs_ref != outs_watch:
-                diff = f"output directories differ: one-shot {outs_ref} vs watcher {outs_watch}"
+                diff = diff or f"output directories differ: one-shot {outs_ref} vs watcher {outs_watch}"
             for d in outs_ref:
                 diff = diff or _tree_diff(os.path.join(ref, d), os.path.join(root, d))
         return {"alive": alive, "diff": diff, "final_version": final, "watch_log_tail": open(os.path.join(root, "watch.log"), errors="replace").read()[-600:]}
